@@ -33,8 +33,10 @@ def domain(s, full):
         return list(range(-128, 128))
     if t == 'Timestamp':
         out = []
-        for y in (2000, 2024, 2099):
-            for (mo, d) in ((1, 1), (2, 29 if y % 4 == 0 and y != 2000 or y == 2000 else 28), (12, 31)):
+        import calendar
+        # (the year travels as one unsigned byte counted from 2000: every value of it when full, else its boundaries)
+        for y in (range(2000, 2256) if full else (2000, 2024, 2099, 2100, 2127, 2128, 2200, 2255)):
+            for (mo, d) in ((1, 1), (2, 29 if calendar.isleap(y) else 28), (12, 31)):
                 for (hh, mi, ss) in ((0, 0, 0), (23, 59, 59), (12, 30, 15)):
                     out.append(dt.datetime(y, mo, d, hh, mi, ss))
         return out
